@@ -14,7 +14,7 @@ RULE = ("E1: scaled storage (levels, inflow, efficiency) / contract / must-run c
         "<= K deviations on three grids; distinct = canonical scenario; non-trivial = optimal and the wrapped asset dispatches")
 ASSUMPTIONS = ["fixed scale: reference = the generator-built plain portfolio with capacities, size, levels, inflow and take volumes x s/S, run "
                "through the real code, value minus s x rate x active duration (R1); dispatch through the plug-in oracle (R2)",
-               "scaled asset and base asset carry the same window (otherwise 'active duration' is ambiguous)",
+               "scaled asset and base asset carry the same window, or the base asset alone has one (the scaled asset is then active, and pays fix costs, over the whole horizon)",
                "free scale: value equals the fixed-scale value at the returned scale and is >= the fixed-scale value on a 6-point grid",
                "structured: reference = flat portfolio with inner windows intersected with the structured asset's window"]
 EXPLANATION = "bounded exhaustive scenario enumeration; differential oracle against the equivalent plain portfolio"
@@ -110,6 +110,8 @@ def gen(ch):
         if kind == "scaled_ob" and (g.tz or win):
             return None   # an order book has no life time of its own (and compares its order dates with the grid as given)
         b.update(win)
+        # the life time may also be given to the base asset alone: the scaled asset then is active (and pays its fix costs) over the whole horizon
+        base_only = bool(win) and kind != "scaled_ob" and ch.pick("window_on", ["both", "base_only"]) == "base_only"
         mode = ch.pick("scale", ["fixed1", "fixed0.5", "fixed2", "fixed3", "free"])
         norm = ch.pick("norm", [1.0, 2.0, 4.0, 0.5])
         rate = ch.pick("fix_costs", [0.0, 0.1])
@@ -118,7 +120,8 @@ def gen(ch):
         else:
             lo = hi = float(mode[5:])
         sc = dict(type="ScaledAsset", name="sc", base_asset=b, min_scale=lo, max_scale=hi, norm_scale=norm, fix_costs=r(rate, g))
-        sc.update(win)
+        if not base_only:
+            sc.update(win)
         assets.insert(ch.free("pos", [3, 0, 1]), sc)
         meta.update(mode=mode, norm=norm, rate=r(rate, g))
     else:
@@ -161,6 +164,8 @@ def gen(ch):
             inner.append(dict(type="ScaledAsset", name="isc", base_asset=sb, min_scale=0.0, max_scale=ch.pick("isc.max", [2.0, 0.0]), norm_scale=1.0,
                               fix_costs=r(ch.pick("isc.fix", [0.01, 0.0]), g)))
         st = dict(type="StructuredAsset", name="st", nodes=ext, portfolio=inner)
+        if ch.pick("st.node_objects", ["shared", "own"]) == "own":
+            st["_fresh_nodes"] = True   # the structured asset names its external nodes through Node objects of its own
         w = ch.pick("st.window", wmenu)
         s_, e_ = S.resolve_window(g, w)
         if s_:
